@@ -35,7 +35,13 @@ def make_inputs(g, rnd, L, G, V):
         if not pool:
             continue
         i = rnd.choice(pool)
-        out[G.node_name(i)] = V.pyval(G.rnd_const(rnd, 'n'))
+        key = G.node_name(i)
+        if rnd.random() < 0.5:
+            # ... through a defined name of that cell, when there is one
+            for n, e in sorted(g.names.items()):
+                if e[0] == 'ref' and e[1] == i:
+                    key = "'[%s]'!%s" % (G.name_text(g, e)[0], n)
+        out[key] = V.pyval(G.rnd_const(rnd, 'n'))
         ids.append(i)
     return out, ids
 
@@ -63,8 +69,16 @@ def main():
             return R.build_files(g, d)
         try:
             used = build()
+            forms = [i for i in g.order if g.cells[i]['k'] == 'f']
+            consts = [i for i in g.order if g.cells[i]['k'] == 'c']
             for inp, _ in seq[:-1]:
                 try:
+                    if forms and consts and rnd.random() < 0.4:
+                        # an earlier *compilation* (some constant as input, the last formulas as
+                        # outputs) must leave no trace either
+                        used.compile(inputs=[G.node_name(rnd.choice(consts))],
+                                     outputs=[G.node_name(i) for i in forms[-2:]])
+                        rec['seq'].append('compile')
                     used.calculate(inputs=inp) if inp else used.calculate()
                 except BaseException as ex:  # noqa
                     if isinstance(ex, (KeyboardInterrupt, SystemExit)):
